@@ -54,6 +54,93 @@ fn main() {
                 Err(_) => println!("R PANIC restart"),
             }
         }
-        _ => { eprintln!("usage: nvh run <script> | loaddump <dir>"); std::process::exit(2); }
+        "transport" => {
+            // nvh transport <script> : the REAL tcp and http front ends (tcp_ops::start_tcp_client, http_ops::start_http_client) on loopback
+            // ports, driven over sockets.  Ops: `T <sid>` connect, `C <sid> <escaped command>` one line, `X <sid>` close the socket,
+            // `H <escaped body>` one HTTP POST, `DUMP`.  Output: `> op`, then `B <sid> <escaped bytes>` for whatever arrived on a socket while
+            // the op ran (until 60 ms of silence), `H <escaped response body>`, dump lines.
+            use std::io::Read;
+            use std::net::{TcpListener, TcpStream};
+            use std::time::{Duration, Instant};
+            let path = args.get(2).expect("script path");
+            let text = std::fs::read_to_string(path).expect("read script");
+            let base = std::env::var("NVH_DIR").unwrap_or_else(|_| "/tmp/nvh-transport".to_string());
+            let dir = format!("{}/t{}", base, std::process::id());
+            let _ = std::fs::remove_dir_all(&dir);
+            let (dbs, repl_rx, sup_rx) = node::make_dbs(&dir, nundb::bo::ClusterRole::Primary, true);
+            let free_port = || { let l = TcpListener::bind("127.0.0.1:0").unwrap(); l.local_addr().unwrap().port() };
+            let tcp_addr = format!("127.0.0.1:{}", free_port());
+            let http_addr = format!("127.0.0.1:{}", free_port());
+            { let d = dbs.clone(); let a = tcp_addr.clone(); let dd = dir.clone(); std::thread::spawn(move || { nundb::verif::set_data_dir(Some(dd)); nundb::network::tcp_ops::start_tcp_client(d, &a) }); }
+            { let d = dbs.clone(); let a = std::sync::Arc::new(http_addr.clone()); let dd = dir.clone(); std::thread::spawn(move || { nundb::verif::set_data_dir(Some(dd)); nundb::network::http_ops::start_http_client(d, a) }); }
+            let connect = |addr: &str| -> TcpStream {
+                let t0 = Instant::now();
+                loop {
+                    match TcpStream::connect(addr) { Ok(s) => return s, Err(_) if t0.elapsed() < Duration::from_secs(5) => std::thread::sleep(Duration::from_millis(10)), Err(e) => panic!("connect {}: {}", addr, e) }
+                }
+            };
+            let n = node::Node { name: "n1".to_string(), pid: 1, co_mode: false, cos: std::collections::BTreeMap::new(), next_co: 0, sup_fut: None, sup_in: None, links: vec![], repl_fut: None, repl_in: None, dbs, repl_rx, sup_rx, sessions: std::collections::BTreeMap::new(), dir: dir.clone(), notices: std::collections::HashMap::new(), last_dump: vec![] };
+            let mut socks: std::collections::BTreeMap<usize, TcpStream> = std::collections::BTreeMap::new();
+            // everything that arrives on the open sockets until all of them have been silent for `quiet` ms (at most `max` ms)
+            fn collect(socks: &mut std::collections::BTreeMap<usize, TcpStream>, need: Option<usize>, quiet: u64, max: u64) -> Vec<(usize, Vec<u8>)> {
+                let mut got: std::collections::BTreeMap<usize, Vec<u8>> = std::collections::BTreeMap::new();
+                let t0 = Instant::now(); let mut last = Instant::now(); let mut buf = [0u8; 65536];
+                loop {
+                    let mut any = false;
+                    for (sid, s) in socks.iter_mut() {
+                        s.set_read_timeout(Some(Duration::from_millis(5))).unwrap();
+                        match s.read(&mut buf) { Ok(k) if k > 0 => { got.entry(*sid).or_default().extend_from_slice(&buf[..k]); any = true; } _ => {} }
+                    }
+                    if any { last = Instant::now(); }
+                    let needed = need.map(|sid| !got.contains_key(&sid)).unwrap_or(false);
+                    if t0.elapsed() > Duration::from_millis(max) { break; }
+                    if !needed && last.elapsed() > Duration::from_millis(quiet) { break; }
+                }
+                got.into_iter().collect()
+            }
+            let out = std::io::stdout(); let mut out = std::io::BufWriter::new(out.lock());
+            for line in text.lines() {
+                if line.is_empty() { continue; }
+                writeln!(out, "> {}", line).unwrap();
+                let p = proto::splitn(line, 3);
+                match p[0] {
+                    "T" => {
+                        let sid: usize = p[1].parse().unwrap();
+                        socks.insert(sid, connect(&tcp_addr));
+                        for (s, b) in collect(&mut socks, Some(sid), 60, 3000) { writeln!(out, "B {} {}", s, proto::esc_bytes(&b, false)).unwrap(); }
+                    }
+                    "C" => {
+                        let sid: usize = p[1].parse().unwrap();
+                        let cmd = proto::unesc(p.get(2).cloned().unwrap_or(""));
+                        if let Some(s) = socks.get_mut(&sid) { let _ = s.write_all(format!("{}\n", cmd).as_bytes()); let _ = s.flush(); }
+                        for (s, b) in collect(&mut socks, Some(sid), 60, 3000) { writeln!(out, "B {} {}", s, proto::esc_bytes(&b, false)).unwrap(); }
+                    }
+                    "X" => {
+                        let sid: usize = p[1].parse().unwrap();
+                        if let Some(s) = socks.remove(&sid) { let _ = s.shutdown(std::net::Shutdown::Both); drop(s); }
+                        std::thread::sleep(Duration::from_millis(80));
+                        for (s, b) in collect(&mut socks, None, 60, 3000) { writeln!(out, "B {} {}", s, proto::esc_bytes(&b, false)).unwrap(); }
+                    }
+                    "H" => {
+                        let body = proto::unesc(line.splitn(2, ' ').nth(1).unwrap_or(""));
+                        let mut s = connect(&http_addr);
+                        let req = format!("POST / HTTP/1.1\r\nHost: localhost\r\nContent-Length: {}\r\nConnection: close\r\n\r\n{}", body.as_bytes().len(), body);
+                        s.write_all(req.as_bytes()).unwrap(); s.flush().unwrap();
+                        s.set_read_timeout(Some(Duration::from_millis(3000))).unwrap();
+                        let mut resp = Vec::new(); let _ = s.read_to_end(&mut resp);
+                        let text = String::from_utf8_lossy(&resp).into_owned();
+                        let b = text.split_once("\r\n\r\n").map(|x| x.1.to_string()).unwrap_or_default();
+                        writeln!(out, "H {}", proto::esc(&b)).unwrap();
+                        for (s, b) in collect(&mut socks, None, 60, 3000) { writeln!(out, "B {} {}", s, proto::esc_bytes(&b, false)).unwrap(); }
+                    }
+                    "DUMP" => { for l in n.dump() { writeln!(out, "{}", l).unwrap(); } }
+                    _ => { writeln!(out, "E bad-op").unwrap(); }
+                }
+            }
+            out.flush().unwrap();
+            let _ = std::fs::remove_dir_all(&dir);
+            std::process::exit(0);
+        }
+        _ => { eprintln!("usage: nvh run <script> | loaddump <dir> | transport <script>"); std::process::exit(2); }
     }
 }
